@@ -85,12 +85,25 @@ class NodeProtocol(Protocol):
         """Returns the program counter address after the node was emitted."""
 
 
+def _check_phase(symbol_name: str, resolver: Resolver, current_addr: Address, file_info: "Token | None") -> None:
+    """A label must still be where the label pass put it when its position is emitted (phase error)."""
+    resolved = resolver.current_scope.labels.get(symbol_name)
+    if resolved is not None and resolved != current_addr.logical_value:
+        raise NodeError(
+            f"Label {symbol_name} resolved to 0x{resolved:06x} but is emitted at 0x{current_addr.logical_value:06x}, "
+            "the size of a previous statement changed between passes.",
+            file_info,  # type: ignore[arg-type]
+        )
+
+
 class LabelNode(NodeProtocol):
-    def __init__(self, symbol_name: str, resolver: Resolver) -> None:
+    def __init__(self, symbol_name: str, resolver: Resolver, file_info: Token | None = None) -> None:
         self.symbol_name = symbol_name
         self.resolver = resolver
+        self.file_info = file_info
 
     def emit(self, current_addr: Address) -> bytes:
+        _check_phase(self.symbol_name, self.resolver, current_addr, self.file_info)
         return b""
 
     def pc_after(self, current_pc: Address) -> Address:
@@ -137,6 +150,7 @@ class BinaryNode(NodeProtocol):
         self.resolver = resolver
 
     def emit(self, current_addr: Address) -> bytes:
+        _check_phase(self.symbol_base, self.resolver, current_addr, None)
         return self.binary_content
 
     def pc_after(self, current_pc: Address) -> Address:
